@@ -52,10 +52,14 @@ def ob_check(w, P):
         w.damage_file(c, scn_mod.fname(i), sx._fold(d.z), rv['size'] + dl)
     extra = s.v_bool('extra')
     w.add_extra(c, 'xx/yy/extra.val', sx._fold(extra.z), size=1)
+    # a stray file directly in the cache directory, next to the database and its journal files
+    extra_top = s.v_bool('extra_top')
+    w.add_extra(c, 'stray.tmp', sx._fold(extra_top.z), size=1)
     w.add_extra(c, 'xx/yy', True, is_dir=True)
     if P.get('empty_dirs', True):
         w.add_extra(c, 'ee', True, is_dir=True)
         w.add_extra(c, 'pp/qq', True, is_dir=True)
+        w.add_extra(c, 'aa/bb/cc', True, is_dir=True)  # deeper than the library's own two-level layout
     dc = s.v_int('dcount', -1, 1)
     ds = s.v_int('dsize', -1, 1)
     w.bump_counter(c, 'count', zv(dc))
@@ -67,7 +71,7 @@ def ob_check(w, P):
     isfile = [And(it.present, EqI(it.c['filename'].cls, TEXT)) for it in items]
     exp_notfound = Count(And(f, dl_) for f, dl_ in zip(isfile, deleted))
     exp_size = Count(And(f, Not(dl_), NeR(zv(dd), 0)) for f, dl_, dd in zip(isfile, deleted, delta))
-    exp_unknown = Count([sx._fold(extra.z)])
+    exp_unknown = Count([sx._fold(extra.z), sx._fold(extra_top.z)])
     exp_count = IfI(NeR(zv(dc), 0), 1, 0)
     # Settings.size is compared with SUM(size) *after* wrong sizes were repaired when fix is on
     if not w.is_real:
